@@ -125,3 +125,46 @@ func vfC17Edge(c int) {
 		vfAssert("coincident-truncated", len(r) == 2)
 	}
 }
+
+// ---- folded lines: vertices on an axis in ANY order (the line doubles back, may return to its
+// start, may repeat vertices); the position of every sample is checked by arc length ----
+
+func vfC17Folded_N(tier int) int { return (2 + tier) * 3 }
+func vfC17Folded_Label(c int) string {
+	return "vertices=" + strconv.Itoa(c/3+3) + " N=" + strconv.Itoa(c%3+2)
+}
+
+func vfC17Folded(c int) {
+	n := c/3 + 3
+	N := c%3 + 2
+	var in orb.LineString
+	for i := 0; i < n; i++ {
+		in = append(in, orb.Point{vfReal("x" + strconv.Itoa(i)), 0})
+	}
+	cum := make([]float64, n)
+	for i := 1; i < n; i++ {
+		cum[i] = cum[i-1] + vfDx(in[i-1], in[i])
+	}
+	total := cum[n-1]
+	vfAssume(total > 0)
+	out := Resample(in.Clone(), vfDx, N)
+	vfReach("folded")
+	vfAssert("folded-exactly-n-points", len(out) == N)
+	if len(out) != N {
+		return
+	}
+	vfAssert("folded-starts-at-first-vertex", vfAnd(out[0][0] == in[0][0], out[0][1] == 0))
+	vfAssert("folded-ends-at-last-vertex", vfAnd(out[N-1][0] == in[n-1][0], out[N-1][1] == 0))
+	s := float64(N - 1)
+	for k := 0; k < N; k++ {
+		t := float64(k) * total // (N-1) times the arc length of sample k
+		on := false
+		for i := 0; i+1 < n; i++ {
+			off := t - s*cum[i] // (N-1) times the distance into segment i
+			fw := s*(out[k][0]-in[i][0]) == off
+			bw := s*(in[i][0]-out[k][0]) == off
+			on = vfOr(on, vfAnd(vfAnd(s*cum[i] <= t, t <= s*cum[i+1]), vfOr(vfAnd(in[i+1][0] >= in[i][0], fw), vfAnd(vfNot(in[i+1][0] >= in[i][0]), bw))))
+		}
+		vfAssert("folded-at-arc-length", vfAnd(out[k][1] == 0, on))
+	}
+}
